@@ -6,7 +6,7 @@
 #include <algorithm>
 #include <cmath>
 
-extern "C" int oracle_version() { return 3; }
+extern "C" int oracle_version() { return 4; }
 
 // ---------------------------------------------------------------------------------------
 // (Ped)MEC objective
@@ -108,6 +108,161 @@ static PedInst mk(int n_ind, int n_trios, const int* trios, int R, int C, const 
                   const int* gl, const int* rc, int conv) {
     PedInst I{n_ind, n_trios, trios, R, C, read_ind, allele, weight, active, distrust, gt, gl, rc, conv};
     return I;
+}
+
+
+// ---------------------------------------------------------------------------------------
+// Genotyping HMM posterior (C08).  Hidden state per column: (bipartition of the reads,
+// transmission value, allele assignment to the founder haplotypes).  Plain (unscaled, long
+// double, every column kept) summation:
+//   mode 0: explicit enumeration of all global bipartitions x transmission paths x allele paths
+//   mode 1: for every global bipartition, forward-backward over the transmission values
+// prior: n_ind*C*3 doubles (prior probability of genotype index 0,1,2)
+// rc: recombination cost per column (phred), qual = weight array (phred base quality)
+// out: C*n_ind*3 doubles
+// ---------------------------------------------------------------------------------------
+static long double eps_of(int q) { return powl(10.0L, -(long double)q / 10.0L); }
+
+static void assignment_probs(const PedInst& I, const double* prior, int c, int t, std::vector<long double>& pa, int hp[][2]) {
+    hap_partitions(I, t, hp);
+    int P = 2 * (I.n_ind - I.n_trios);
+    int A = 1 << P;
+    pa.assign(A, 0.0L);
+    std::vector<int> code(A);
+    std::vector<int> count(1 << (2 * I.n_ind), 0);  // genotype vector code (2 bits per individual)
+    for (int a = 0; a < A; ++a) {
+        long double p = 1.0L;
+        int gcode = 0;
+        for (int i = 0; i < I.n_ind; ++i) {
+            int g = ((a >> hp[i][0]) & 1) + ((a >> hp[i][1]) & 1);
+            p *= prior[(i * I.C + c) * 3 + g];
+            gcode |= g << (2 * i);
+        }
+        code[a] = gcode;
+        count[gcode] += 1;
+        pa[a] = p;
+    }
+    long double sum = 0.0L;
+    for (int a = 0; a < A; ++a) { pa[a] /= count[code[a]]; sum += pa[a]; }
+    for (int a = 0; a < A; ++a) pa[a] /= sum;
+}
+
+static long double emission(const PedInst& I, unsigned part, int c, int a, int hp[][2]) {
+    long double e = 1.0L;
+    for (int r = 0; r < I.R; ++r) {
+        int al = I.allele[r * I.C + c];
+        if (al < 0) continue;
+        int h = (part >> r) & 1;
+        int hap_allele = (a >> hp[I.read_ind[r]][h]) & 1;
+        long double eps = eps_of(I.weight[r * I.C + c]);
+        e *= (hap_allele == al) ? (1.0L - eps) : eps;
+    }
+    return e;
+}
+
+extern "C" int genotype_posterior(int n_ind, int n_trios, const int* trios, int R, int C, const int* read_ind,
+                                  const int* allele, const int* weight, const double* prior, const int* rc,
+                                  int mode, double* out) {
+    PedInst I = mk(n_ind, n_trios, trios, R, C, read_ind, allele, weight, nullptr, 1, nullptr, nullptr, rc, 0);
+    int T = 1 << (2 * n_trios);
+    int P = 2 * (n_ind - n_trios);
+    int A = 1 << P;
+    std::vector<long double> acc((size_t)C * n_ind * 3, 0.0L);
+    // transition matrices per column
+    std::vector<long double> tr((size_t)C * T * T, 0.0L);
+    for (int c = 0; c < C; ++c) {
+        long double r = eps_of(rc[c]);
+        for (int j = 0; j < T; ++j) {
+            long double sum = 0.0L;
+            for (int i = 0; i < T; ++i) {
+                int x = popcnt((unsigned)(i ^ j));
+                long double p = powl(r, x) * powl(1.0L - r, 2 * n_trios - x);
+                tr[((size_t)c * T + j) * T + i] = p;
+                sum += p;
+            }
+            for (int i = 0; i < T; ++i) tr[((size_t)c * T + j) * T + i] /= sum;
+        }
+    }
+    // per column / transmission: assignment probabilities and haplotype maps
+    std::vector<std::vector<long double>> pa((size_t)C * T);
+    std::vector<int> hps((size_t)T * 8 * 2);
+    for (int t = 0; t < T; ++t) {
+        int hp[8][2];
+        hap_partitions(I, t, hp);
+        for (int i = 0; i < n_ind; ++i) { hps[((size_t)t * 8 + i) * 2] = hp[i][0]; hps[((size_t)t * 8 + i) * 2 + 1] = hp[i][1]; }
+        for (int c = 0; c < C; ++c) { int hp2[8][2]; assignment_probs(I, prior, c, t, pa[(size_t)c * T + t], hp2); }
+    }
+    for (unsigned part = 0; part < (1u << R); ++part) {
+        // w[c][t][a] = P(a|t) * emission
+        std::vector<long double> w((size_t)C * T * A);
+        for (int c = 0; c < C; ++c)
+            for (int t = 0; t < T; ++t) {
+                int hp[8][2];
+                for (int i = 0; i < n_ind; ++i) { hp[i][0] = hps[((size_t)t * 8 + i) * 2]; hp[i][1] = hps[((size_t)t * 8 + i) * 2 + 1]; }
+                for (int a = 0; a < A; ++a) w[((size_t)c * T + t) * A + a] = pa[(size_t)c * T + t][a] * emission(I, part, c, a, hp);
+            }
+        if (mode == 1) {
+            std::vector<long double> e((size_t)C * T, 0.0L), F((size_t)C * T), B((size_t)C * T);
+            for (int c = 0; c < C; ++c)
+                for (int t = 0; t < T; ++t) { long double s = 0; for (int a = 0; a < A; ++a) s += w[((size_t)c * T + t) * A + a]; e[(size_t)c * T + t] = s; }
+            // F[c][t] = sum over paths up to c-1 (excluding column c's own weight)
+            for (int t = 0; t < T; ++t) F[t] = 1.0L;
+            for (int c = 1; c < C; ++c)
+                for (int t = 0; t < T; ++t) {
+                    long double s = 0;
+                    for (int j = 0; j < T; ++j) s += F[(size_t)(c - 1) * T + j] * e[(size_t)(c - 1) * T + j] * tr[((size_t)c * T + j) * T + t];
+                    F[(size_t)c * T + t] = s;
+                }
+            for (int t = 0; t < T; ++t) B[(size_t)(C - 1) * T + t] = 1.0L;
+            for (int c = C - 2; c >= 0; --c)
+                for (int t = 0; t < T; ++t) {
+                    long double s = 0;
+                    for (int i = 0; i < T; ++i) s += tr[((size_t)(c + 1) * T + t) * T + i] * e[(size_t)(c + 1) * T + i] * B[(size_t)(c + 1) * T + i];
+                    B[(size_t)c * T + t] = s;
+                }
+            for (int c = 0; c < C; ++c)
+                for (int t = 0; t < T; ++t) {
+                    long double fb = F[(size_t)c * T + t] * B[(size_t)c * T + t];
+                    for (int a = 0; a < A; ++a) {
+                        long double x = fb * w[((size_t)c * T + t) * A + a];
+                        for (int i = 0; i < n_ind; ++i) {
+                            int g = ((a >> hps[((size_t)t * 8 + i) * 2]) & 1) + ((a >> hps[((size_t)t * 8 + i) * 2 + 1]) & 1);
+                            acc[((size_t)c * n_ind + i) * 3 + g] += x;
+                        }
+                    }
+                }
+        } else {
+            // odometer over (t_c, a_c) for all columns
+            std::vector<int> tp(C, 0), ap(C, 0);
+            while (true) {
+                long double x = 1.0L;
+                for (int c = 0; c < C; ++c) {
+                    x *= w[((size_t)c * T + tp[c]) * A + ap[c]];
+                    if (c > 0) x *= tr[((size_t)c * T + tp[c - 1]) * T + tp[c]];
+                }
+                for (int c = 0; c < C; ++c)
+                    for (int i = 0; i < n_ind; ++i) {
+                        int t = tp[c], a = ap[c];
+                        int g = ((a >> hps[((size_t)t * 8 + i) * 2]) & 1) + ((a >> hps[((size_t)t * 8 + i) * 2 + 1]) & 1);
+                        acc[((size_t)c * n_ind + i) * 3 + g] += x;
+                    }
+                int k = 0;
+                while (k < 2 * C) {
+                    if (k % 2 == 0) { if (++tp[k / 2] < T) break; tp[k / 2] = 0; }
+                    else { if (++ap[k / 2] < A) break; ap[k / 2] = 0; }
+                    ++k;
+                }
+                if (k == 2 * C) break;
+            }
+        }
+    }
+    for (int c = 0; c < C; ++c)
+        for (int i = 0; i < n_ind; ++i) {
+            long double s = 0;
+            for (int g = 0; g < 3; ++g) s += acc[((size_t)c * n_ind + i) * 3 + g];
+            for (int g = 0; g < 3; ++g) out[((size_t)c * n_ind + i) * 3 + g] = (double)(s > 0 ? acc[((size_t)c * n_ind + i) * 3 + g] / s : 0.0L);
+        }
+    return 0;
 }
 
 extern "C" {
